@@ -775,6 +775,12 @@ func (tc *TrCtx) trCall(e *ECall) TVal {
 	case "box":
 		x := tc.tr(e.Args[0])
 		return TVal{S.box(x.typ, x.t), types.NewInterfaceType(nil, nil)}
+	case "distinct":
+		var ts []string
+		for _, a := range e.Args {
+			ts = append(ts, tc.tr(a).t)
+		}
+		return TVal{"(distinct " + strings.Join(ts, " ") + ")", tBool}
 	case "isnil":
 		x := tc.tr(e.Args[0])
 		if _, ok := x.typ.Underlying().(*types.Slice); ok {
@@ -885,8 +891,13 @@ func (tc *TrCtx) unfold(sf *SpecFunInfo, args []TVal, app string) {
 		}
 	}
 	if len(qs) > 0 {
-		fact = fmt.Sprintf("(forall (%s) (! %s :pattern (%s)))", strings.Join(qs, " "), fact, app)
+		if strings.Contains(app, "(ite ") || strings.Contains(app, "(and ") || strings.Contains(app, "(not ") || strings.Contains(app, "(= ") || strings.Contains(app, "(let ") {
+			fact = fmt.Sprintf("(forall (%s) %s)", strings.Join(qs, " "), fact)
+		} else {
+			fact = fmt.Sprintf("(forall (%s) (! %s :pattern (%s)))", strings.Join(qs, " "), fact, app)
+		}
 	}
+	fact = tc.wrapLets(fact)
 	tc.side = append(tc.side, fact)
 }
 
